@@ -8,7 +8,8 @@ code -> spec  histories recorded from a real time-series counter in virtual time
               windows) are validated by TLC at the REAL constants: property invariants on what the counter exported, and
               exact conformance of the exported history with the specification's
 spec -> code  every Quota.tla case (allowance x traffic class x user kind) on real client+server muxes, TCP and UDP:
-              echoed bytes, bytes relayed to the server application
+              echoed bytes, bytes relayed to the server application; and refusals raced, in real time, against a server
+              application that is already reading the new session while the server's log sink is slow
 """
 import json
 import os
@@ -100,6 +101,18 @@ def run(ctx):
         ctx.coverage["distinct_nontrivial"] += len(qg)
         ctx.sample({"kind": "quota case on real muxes", "record": qg[5]})
         validate(ctx, qout, wd, "quota")
+        # the refusal races with an application already blocked in Read on the new session (real time, slow log sink)
+        rout = os.path.join(wd, "quotarace.ndjson")
+        rc, log, _ = vlib.go_test("./c19/", "TestQuotaRace$", env={"VERIF_OUT": rout, "VERIF_SEED": ctx.seed,
+                                                                   "VERIF_N": 25 if not ctx.thorough() else 200}, timeout=1200)
+        if rc != 0 or not os.path.exists(rout):
+            raise Inconclusive("driver TestQuotaRace failed:\n" + log[-3000:])
+        rg = vlib.read_ndjson(rout)
+        if not rg:
+            raise Inconclusive("quota race driver recorded nothing")
+        ctx.coverage["evaluations"] += len(rg)
+        ctx.coverage["quota_race_trials"] = len(rg)
+        validate(ctx, rout, wd, "quotarace", props=("QuotaBinds",))
         # a user's first sessions arrive concurrently: the counter is created while it is first being used
         fout = os.path.join(wd, "first.ndjson")
         rc, log, _ = vlib.go_test("./c19/", "TestConcurrentFirstSessions$", env={"VERIF_OUT": fout, "VERIF_SEED": ctx.seed}, timeout=900)
